@@ -205,6 +205,19 @@ package config
 //@ axiom[md5-not-empty] forall(a, []byte, md5of(a) != "")
 //@ axiom[md5-injective] forall(a, []byte, forall(b, []byte, md5of(a) == md5of(b) ==> a == b))
 
+// the digest the snapshots are compared by IS the MD5 of the content (hex): the injectivity assumption above is about
+// MD5 and about nothing weaker (a checksum with practical collisions would leave rejected content on disk unnoticed)
+//@ pure md5.Sum
+//@ pure hex.EncodeToString
+//@ axiom[md5of-is-hex-md5] forall(a, []byte, md5of(a) == hex.EncodeToString(md5.Sum(a)[:]))
+//@ func (*FileSystemBackUp).SetMD5OfStorage
+//@   prop C08
+//@   requires fsb != nil && fsb.data != nil && fsb.dataMD5 != nil && fsb.data != fsb.dataMD5
+//@   modifies mapof(fsb.dataMD5)
+//@   loop 1 modifies mapof(fsb.dataMD5)
+//@   loop 1 invariant[digests-so-far] forall(p, string, in(p, seen1) ==> in(p, fsb.dataMD5) && fsb.dataMD5[p] == md5of(fsb.data[p]))
+//@   ensures[md5-of-every-stored-file] forall(p, string, in(p, fsb.data) ==> in(p, fsb.dataMD5) && fsb.dataMD5[p] == md5of(fsb.data[p]))
+
 // a snapshot is consistent: one digest per stored file, the digest of its content
 //@ ghost func snapOK(b *FileSystemBackUp) bool = b != nil && b.data != nil && b.dataMD5 != nil && forall(p, string, in(p, b.dataMD5) <==> in(p, b.data)) && forall(p, string, in(p, b.data) ==> b.dataMD5[p] == md5of(b.data[p]))
 //@ extern FileSystemOperation.createFileSystemBackUp
